@@ -14,6 +14,7 @@ import (
 	"github.com/thushan/olla/internal/core/domain"
 	"github.com/thushan/olla/internal/logger"
 	"github.com/thushan/olla/pkg/pool"
+	"github.com/tidwall/gjson"
 )
 
 const (
@@ -62,10 +63,9 @@ func (bi *BodyInspector) Inspect(ctx context.Context, r *http.Request, profile *
 		return nil
 	}
 
-	if r.ContentLength > bi.maxBodySize {
-		bi.logger.Debug("Skipping body inspection for large request", "content_length", r.ContentLength)
-		return nil
-	}
+	// a body larger than the inspection window is still looked at: its first maxBodySize bytes
+	// usually name the model (a request is not exempt from model routing because it carries
+	// an image or a long conversation)
 
 	buffer := bi.bufferPool.Get()
 	defer func() {
@@ -137,6 +137,11 @@ func (bi *BodyInspector) extractModelName(body []byte) string {
 	// Fall back to flexible map-based extraction to handle non-standard formats
 	var data map[string]interface{}
 	if err := json.Unmarshal(body, &data); err != nil {
+		// not a complete document - typically the first part of a body larger than the
+		// inspection window: look for a top-level "model" in what we have
+		if m := gjson.GetBytes(body, "model"); m.Type == gjson.String && m.Str != "" {
+			return bi.normalizeModelName(m.Str)
+		}
 		return ""
 	}
 
